@@ -149,8 +149,20 @@ def one_case(seed):
             if [i for i in now if i in set(old_ids)] != survivors:
                 return text, ops_done, "%s changed the identity or order of other nodes" % op, nested
         elif kind < 0.65:
-            # ---- a node that is not in the tree
-            other = M.parse("{{zz}}").nodes[0]
+            # ---- a node or a Wikicode that is not in the tree (half of the time one that renders like a part of it)
+            codes = [cc for nn in nodes for cc in nn.__children__()]
+            if codes and rng.random() < 0.5:
+                twin = rng.choice(codes)
+                wrapper = M.parse("{{w|" + str(twin) + "}}")
+                cands = [cc for nn in wrapper.filter() for cc in nn.__children__() if str(cc) == str(twin)]
+                other = cands[0] if cands else M.parse(str(twin))
+                other_owner = wrapper
+            else:
+                other = M.parse("{{zz}}").nodes[0]
+                other_owner = None
+            owner_before = str(other_owner) if other_owner is not None else None
+            if other_owner is not None and page.contains(other):
+                return text, ops_done, "contains() is true for a Wikicode of another tree (it renders like a nested one: %r)" % str(other)[:40], nested
             op = rng.choice(["insert_before", "insert_after", "replace", "remove"])
             ops_done.append((op, "foreign node"))
             try:
@@ -165,6 +177,8 @@ def one_case(seed):
                 return text, ops_done, "%s with a foreign node raised %r instead of ValueError" % (op, e), nested
             if str(page) != old or [id(x) for x in page.filter()] != old_ids:
                 return text, ops_done, "a failed %s changed the tree" % op, nested
+            if other_owner is not None and str(other_owner) != owner_before:
+                return text, ops_done, "%s with a target from another tree edited THAT tree" % op, nested
         elif kind < 0.9:
             # ---- index target on the page or on a nested Wikicode
             codes = [page] + [c for n in nodes for c in n.__children__()]
